@@ -25,10 +25,25 @@ type ringSut struct {
 	next  int
 	hash  uint64
 	wraps int
+	// quiet > 0: no observer (Len/Cap/IsEmpty/IsFull/Peek) is called for that many
+	// operations; the operations' own results are still compared
+	quiet     int
+	quietCase bool
 }
 
 func (s *ringSut) observe(after string) bool {
 	c := s.c
+	if s.quiet > 0 {
+		s.quiet--
+		c.Add("observations_deferred", 1)
+		if s.quiet > 0 {
+			return true
+		}
+		c.Add("quiet_windows_closed", 1)
+	} else if s.quietCase && c.Rng.Chance(1, 10) {
+		s.quiet = c.Rng.Range(2, 8)
+		return true
+	}
 	var n, cp int
 	var e, f bool
 	var pv int
@@ -149,7 +164,7 @@ func ringCase(c *ev.Case) {
 	if !c.Guard("New", func() { r = ringz.New[int](cp) }) {
 		return
 	}
-	s := &ringSut{c: c, r: &r, cap: cp, next: 1}
+	s := &ringSut{c: c, r: &r, cap: cp, next: 1, quietCase: rng.Chance(1, 3)}
 	if !s.observe("New") {
 		return
 	}
@@ -188,7 +203,8 @@ func ringCase(c *ev.Case) {
 			return
 		}
 	}
-	if !s.drainCheck() {
+	s.quiet = 0
+	if !s.observe("end of sequence") || !s.drainCheck() {
 		return
 	}
 	c.Distinct(s.hash)
@@ -268,15 +284,28 @@ func gridCase(c *ev.Case) {
 // ---- SyncRing ----
 
 type syncSut struct {
-	c    *ev.Case
-	r    *ringz.SyncRing[int]
-	m    []int
-	cap  int
-	next int
-	hash uint64
+	c         *ev.Case
+	r         *ringz.SyncRing[int]
+	m         []int
+	cap       int
+	next      int
+	hash      uint64
+	quiet     int
+	quietCase bool
 }
 
 func (s *syncSut) observe(after string) bool {
+	if s.quiet > 0 {
+		s.quiet--
+		s.c.Add("observations_deferred", 1)
+		if s.quiet > 0 {
+			return true
+		}
+		s.c.Add("quiet_windows_closed", 1)
+	} else if s.quietCase && s.c.Rng.Chance(1, 10) {
+		s.quiet = s.c.Rng.Range(2, 8)
+		return true
+	}
 	var n, cp int
 	var e, f bool
 	if !s.c.Guard("Len/IsEmpty/IsFull/Cap", func() { n, cp, e, f = s.r.Len(), s.r.Cap(), s.r.IsEmpty(), s.r.IsFull() }) {
@@ -397,7 +426,7 @@ func syncCase(c *ev.Case) {
 	if !c.Guard("NewSync", func() { r = ringz.NewSync[int](req) }) {
 		return
 	}
-	s := &syncSut{c: c, r: &r, cap: wantCap(req), next: 1}
+	s := &syncSut{c: c, r: &r, cap: wantCap(req), next: 1, quietCase: rng.Chance(1, 3)}
 	var got int
 	c.Guard("Cap", func() { got = r.Cap() })
 	c.Logf("NewSync(%d): Cap=%d", req, got)
@@ -409,6 +438,10 @@ func syncCase(c *ev.Case) {
 		return
 	}
 	if !s.randomOps(rng.Pick(30, 120, 400)) {
+		return
+	}
+	s.quiet = 0
+	if !s.observe("end of sequence") {
 		return
 	}
 	c.Add("syncring_sequences", 1)
@@ -572,6 +605,7 @@ func main() {
 	r.Require("ring_recaps_ok", 1000)
 	r.Require("ring_expands", 1000)
 	r.Require("syncring_sequences", 10000)
+	r.Require("quiet_windows_closed", 3000)
 	if r.Thorough() {
 		r.Require("honest_wraps", 6)
 	}
